@@ -124,10 +124,10 @@ func factsC08(r *Repo) []Fact {
 			if c != "len(msr.chosenList)>maxSelectNum" {
 				return true
 			}
-			thenReflect := containsSelCall(is.Body, "reflect", "Select")
+			thenReflect := c08HasSelCall(is.Body, "reflect", "Select")
 			elseRecvN := false
 			if eb, isBlock := is.Else.(*ast.BlockStmt); isBlock {
-				elseRecvN = containsCall(eb, "receiveN") && !containsSelCall(eb, "reflect", "Select")
+				elseRecvN = containsCall(eb, "receiveN") && !c08HasSelCall(eb, "reflect", "Select")
 			}
 			if thenReflect && elseRecvN {
 				ok = true
@@ -184,7 +184,7 @@ func factsC08(r *Repo) []Fact {
 						idem = true
 					}
 				}
-				closes := containsSelCallExpr(s.Body, "p.sr.Close")
+				closes := c08HasCallTo(s.Body, "p.sr.Close")
 				if closes && s.Else == nil {
 					if allVar != "" && c == allVar {
 						atLen = true
@@ -275,7 +275,7 @@ func factsC08(r *Repo) []Fact {
 							}
 						}
 					}
-					loopOK = brEOF && brClosed && containsSelCallExpr(v.Body, "ret.send") && containsSelCallExpr(v.Body, fw.self+".recv")
+					loopOK = brEOF && brClosed && c08HasCallTo(v.Body, "ret.send") && c08HasCallTo(v.Body, fw.self+".recv")
 				}
 			}
 			if deferOK && loopOK {
@@ -327,11 +327,11 @@ func c08SelectCases(fl *ast.FuncLit) ([]string, string) {
 }
 
 // containsSelCall: a call pkg.Name(...) somewhere below n.
-func containsSelCall(n ast.Node, pkg, name string) bool {
-	return containsSelCallExpr(n, pkg+"."+name)
+func c08HasSelCall(n ast.Node, pkg, name string) bool {
+	return c08HasCallTo(n, pkg+"."+name)
 }
 
-func containsSelCallExpr(n ast.Node, fun string) bool {
+func c08HasCallTo(n ast.Node, fun string) bool {
 	found := false
 	ast.Inspect(n, func(x ast.Node) bool {
 		if c, ok := x.(*ast.CallExpr); ok && exprString(c.Fun) == fun {
